@@ -282,6 +282,14 @@ class SymRecArray:
         raise IndexError(f"unsupported index {k!r}")
 
     def __setitem__(self, k, v):
+        if isinstance(k, str):       # column assignment
+            sh = self.dtype.shape_of(k)
+            n = len(self._recs)
+            src = v if isinstance(v, _np.ndarray) else _np.asarray(objarr(v) if has_sym(v) else v, dtype=object)
+            src = _np.broadcast_to(src, (n,) + tuple(sh))
+            for i, r in enumerate(self._recs):
+                r[k] = src[i]
+            return
         if isinstance(k, (int, _np.integer)):
             r = self._recs[k]
             if isinstance(v, tuple):
